@@ -152,7 +152,8 @@ Ltac eqb_cases :=
   end.
 
 Ltac unf := unfold alive, reserved, holders, delivered, running_j, running,
-  set_d, set_w, set_counter, add_worker, add_job, set_jobs, add_completed in *; cbn [limit counter disp work jobs completed] in *.
+  sending, woken, set_d, set_w, set_counter, add_worker, add_job, set_jobs, add_completed, add_wake in *;
+  cbn [limit counter disp work jobs completed wakes] in *.
 
 Lemma entry_ok_mono : forall s s' e,
   (forall j x, nth_error (jobs s) j = Some x ->
@@ -231,6 +232,7 @@ Proof.
     + rewrite nth_error_upd_ne in Hx by auto. specialize (Ir _ _ Hx). fin.
   - (* EEnd *)
     specialize (Ir _ _ Hx). rewrite sumf_app. unfold is_entry in *. fin.
+  - specialize (Ir _ _ Hx). fin.
   - specialize (Ir _ _ Hx). fin.
   - specialize (Ir _ _ Hx). fin.
   - specialize (Ir _ _ Hx). fin.
@@ -513,8 +515,12 @@ Proof. intros s w j x H R. unfold step, step_common. rewrite H, R. reflexivity. 
 
 Lemma ev_End : forall s w j x, nth_error (work s) w = Some (WRunning j) ->
   nth_error (jobs s) j = Some x ->
-  step s (EEnd w) = Some (add_completed (set_w s w WLoop) (owner x, j, panics x)).
+  step s (EEnd w) = Some (add_completed (set_w s w (WSent (owner x) j)) (owner x, j, panics x)).
 Proof. intros s w j x H R. unfold step, step_common. rewrite H, R. reflexivity. Qed.
+
+Lemma ev_Wake : forall s w d j, nth_error (work s) w = Some (WSent d j) ->
+  step s (EWake w) = Some (add_wake (set_w s w WLoop) (d, j)).
+Proof. intros s w d j H. ev_tac H. Qed.
 
 Lemma ev_RecvEnter : forall s w, nth_error (work s) w = Some WLoop ->
   step s (ERecvEnter w) = Some (set_w s w WRecv).
@@ -528,8 +534,8 @@ Lemma ev_GuardDrop : forall s w c, nth_error (work s) w = Some WExiting -> count
   step s (EGuardDrop w) = Some (set_counter (set_w s w WExited) c).
 Proof. intros s w c H R. unfold step, step_common. rewrite H, R. reflexivity. Qed.
 
-Ltac fld := unfold add_job, set_d, set_w, set_counter, add_worker, set_jobs, add_completed;
-  cbn [limit counter disp work jobs completed].
+Ltac fld := unfold add_job, set_d, set_w, set_counter, add_worker, set_jobs, add_completed, add_wake;
+  cbn [limit counter disp work jobs completed wakes].
 
 Lemma steps_cons : forall s e s1 es, step s e = Some s1 -> steps s (e :: es) = steps s1 es.
 Proof. intros. unfold steps. simpl. rewrite H. reflexivity. Qed.
@@ -542,10 +548,10 @@ Lemma retire_then_run : forall l d es s dd p, 1 <= l ->
   exists s1 s',
     step s (ECall dd p) = Some s1 /\
     (forall w', step s1 (ETrySendOk dd w') = None) /\
-    steps s1 [ETrySendFull dd; ECheckOk dd; ESpawn dd; EStart w; EEnd w] = Some s' /\
+    steps s1 [ETrySendFull dd; ECheckOk dd; ESpawn dd; EStart w; EEnd w; EWake w] = Some s' /\
     length (work s') = S w /\ nth_error (work s') w = Some WLoop /\
     nth_error (jobs s') j = Some (mk_job dd p 1) /\
-    completed s' = completed s ++ [(dd, j, p)].
+    completed s' = completed s ++ [(dd, j, p)] /\ wakes s' = wakes s ++ [(dd, j)].
 Proof.
   intros l d es s dd p L H Hx Hi Hd j w.
   pose proof (reachable_inv _ _ _ _ L H) as I.
@@ -567,7 +573,8 @@ Proof.
   set (s3 := set_counter (set_d s2 dd (DSpawn j)) 1).
   set (s4 := add_worker (set_d s3 dd DIdle) (WRun j)).
   set (s5 := set_jobs (set_w s4 w (WRunning j)) (upd (jobs s4) j (started (mk_job dd p 0)))).
-  set (s6 := add_completed (set_w s5 w WLoop) (dd, j, p)).
+  set (s6 := add_completed (set_w s5 w (WSent dd j)) (dd, j, p)).
+  set (s7 := add_wake (set_w s6 w WLoop) (dd, j)).
   assert (D1 : nth_error (disp s1) dd = Some (DTry j)).
   { unfold s1; fld. eapply nth_error_upd_eq; eauto. }
   assert (D2 : nth_error (disp s2) dd = Some (DFull j)).
@@ -582,7 +589,9 @@ Proof.
   { unfold s5; fld. eapply nth_error_upd_eq; eauto. }
   assert (J5 : nth_error (jobs s5) j = Some (mk_job dd p 1)).
   { unfold s5; fld. eapply nth_error_upd_eq; eauto. }
-  exists s1, s6.
+  assert (W6 : nth_error (work s6) w = Some (WSent dd j)).
+  { unfold s6; fld. eapply nth_error_upd_eq; eauto. }
+  exists s1, s7.
   split. { apply ev_Call; auto. }
   split.
   { intros w'. unfold step, step_common. rewrite D1.
@@ -597,13 +606,14 @@ Proof.
     rewrite (steps_cons _ _ s4). 2:{ apply ev_Spawn; auto. }
     rewrite (steps_cons _ _ s5). 2:{ unfold s5. apply ev_Start; auto. }
     rewrite (steps_cons _ _ s6). 2:{ unfold s6. apply (ev_End s5 w j (mk_job dd p 1)); auto. }
+    rewrite (steps_cons _ _ s7). 2:{ unfold s7. apply ev_Wake; auto. }
     reflexivity. }
   split.
-  { change (work s6) with (upd (upd (work s ++ [WRun j]) w (WRunning j)) w WLoop).
-    rewrite length_upd, length_upd, app_length. unfold w. simpl. lia. }
-  split. { unfold s6; fld. eapply nth_error_upd_eq; eauto. }
+  { change (work s7) with (upd (upd (upd (work s ++ [WRun j]) w (WRunning j)) w (WSent dd j)) w WLoop).
+    rewrite !length_upd, app_length. unfold w. simpl. lia. }
+  split. { unfold s7; fld. eapply nth_error_upd_eq; eauto. }
   split. { exact J5. }
-  reflexivity.
+  split; reflexivity.
 Qed.
 
 (* ---------------------------------------------------------------------- *)
@@ -697,6 +707,15 @@ Proof.
   fld. eapply nth_error_upd_eq; eauto.
 Qed.
 
+Lemma fin_try_sent : forall s d j w d' k, inv s -> nth_error (disp s) d = Some (DTry j) ->
+  nth_error (work s) w = Some (WSent d' k) -> can_finish s j.
+Proof.
+  intros s d j w d' k I Hd Hw. pose proof (ev_Wake _ _ _ _ Hw) as E.
+  eapply can_finish_step; [exact E|].
+  eapply fin_try_loop with (d := d) (w := w); [eapply step_inv; eauto|exact Hd|].
+  fld. eapply nth_error_upd_eq; eauto.
+Qed.
+
 Lemma fin_try_running : forall s d j w k, inv s -> nth_error (disp s) d = Some (DTry j) ->
   nth_error (work s) w = Some (WRunning k) -> can_finish s j.
 Proof.
@@ -704,7 +723,7 @@ Proof.
   destruct (hw_holder_job s k w _ I Hw) as ((x & Hx) & _). { simpl. apply b2n_eqb_refl. }
   pose proof (ev_End _ _ _ _ Hw Hx) as E.
   eapply can_finish_step; [exact E|].
-  eapply fin_try_loop with (d := d) (w := w); [eapply step_inv; eauto|exact Hd|].
+  eapply fin_try_sent with (d := d) (w := w); [eapply step_inv; eauto|exact Hd|].
   fld. eapply nth_error_upd_eq; eauto.
 Qed.
 
@@ -753,6 +772,7 @@ Proof.
       exfalso. apply (Iw WSpawned); auto. eapply nth_error_In; eauto.
     - eapply fin_try_run; eauto.
     - eapply fin_try_running; eauto.
+    - eapply fin_try_sent; eauto.
     - eapply fin_try_loop; eauto.
     - pose proof (existsb_false_nth _ _ _ _ _ R Hw). discriminate.
     - eapply fin_try_exiting; eauto. }
@@ -839,7 +859,7 @@ Definition d10_single_trace : list ev :=
   [ECall 0 false; ETrySendFull 0; ECheckOk 0; ESpawn 0; ESendBlock 0;
    EWorkerInc 0; ERecvTake 0 0; EStart 0;
    ECall 0 false; ETrySendFull 0; ECheckOk 0; ESpawn 0; ESendBlock 0;
-   EEnd 0; ERecvTake 0 0; EStart 0;
+   EEnd 0; EWake 0; ERecvTake 0 0; EStart 0;
    ECall 0 false; ETrySendFull 0; ECheckOk 0; ESpawn 0; ESendBlock 0;
    EWorkerInc 1; EWorkerInc 2; ERecvTake 1 0; EStart 1].
 
@@ -866,4 +886,142 @@ Proof.
     repeat (match goal with
             | |- context [nth_error _ ?n] => is_var n; destruct n; cbn
             end); reflexivity.
+Qed.
+
+(* ---------------------------------------------------------------------- *)
+(* every result placed in a completed channel is followed by a wake of that
+   submitter's driver: send and wake are consecutive steps of the worker, the
+   wake has no condition *)
+
+Definition sent_ok (s : st) (p : wpc) : Prop :=
+  match p with
+  | WSent d k => exists x, nth_error (jobs s) k = Some x /\ owner x = d
+  | _ => True
+  end.
+
+Definition wake_ok (s : st) (e : nat * nat) : Prop :=
+  exists x, nth_error (jobs s) (snd e) = Some x /\ owner x = fst e.
+
+Record winv (s : st) : Prop := mk_winv {
+  w_count : forall j, delivered s j = sending s j + woken s j;
+  w_sent : Forall (sent_ok s) (work s);
+  w_wakes : Forall (wake_ok s) (wakes s);
+  w_entries : Forall (entry_ok s) (completed s)
+}.
+
+Lemma winv_init : forall l d, winv (init l d).
+Proof. intros. constructor; unfold init, delivered, sending, woken; simpl; auto. Qed.
+
+Lemma sent_ok_mono : forall s s' p,
+  (forall j x, nth_error (jobs s) j = Some x ->
+     exists x', nth_error (jobs s') j = Some x' /\ owner x' = owner x /\ panics x' = panics x) ->
+  sent_ok s p -> sent_ok s' p.
+Proof.
+  intros s s' p H. destruct p; simpl; auto. intros (x & A & B).
+  destruct (H _ _ A) as (x' & A' & B' & _). exists x'. split; congruence.
+Qed.
+
+Lemma wake_ok_mono : forall s s' e,
+  (forall j x, nth_error (jobs s) j = Some x ->
+     exists x', nth_error (jobs s') j = Some x' /\ owner x' = owner x /\ panics x' = panics x) ->
+  wake_ok s e -> wake_ok s' e.
+Proof.
+  intros s s' e H (x & A & B). destruct (H _ _ A) as (x' & A' & B' & _).
+  exists x'. split; congruence.
+Qed.
+
+Lemma step_count_wake : forall s e s', step s e = Some s' ->
+  (forall j, delivered s j = sending s j + woken s j) ->
+  (forall j, delivered s' j = sending s' j + woken s' j).
+Proof.
+  intros s e s' H Iw. unfold step, step_common in H.
+  destruct e; break_step H; intros jj; specialize (Iw jj); unf;
+    upd_facts; rewrite ?sumf_app; unfold is_entry, is_wake in *; simpl in *; eqb_cases; simpl in *; try lia.
+Qed.
+
+Lemma step_winv : forall s e s', step s e = Some s' -> winv s -> winv s'.
+Proof.
+  intros s e s' H [Ic Is Iw Ie].
+  pose proof (step_jobs_mono _ _ _ H) as M.
+  assert (Is' : Forall (sent_ok s') (work s)).
+  { eapply Forall_impl; [|exact Is]. intros a. apply sent_ok_mono; auto. }
+  assert (Iw' : Forall (wake_ok s') (wakes s)).
+  { eapply Forall_impl; [|exact Iw]. intros a. apply wake_ok_mono; auto. }
+  constructor.
+  - eapply step_count_wake; eauto.
+  - clear Iw Iw' Ie Ic. unfold step, step_common in H.
+    destruct e; break_step H; unf; auto;
+      try (apply Forall_upd; [assumption | simpl; auto]);
+      try (apply Forall_snoc; [assumption | simpl; auto]).
+    (* EEnd: the closure wakes the driver of the submitter recorded in the job *)
+    destruct (M _ _ Heqo0) as (x' & A & B & _). unf. exists x'. split; auto.
+  - clear Is' Ie Ic. unfold step, step_common in H.
+    destruct e; break_step H; unf; auto.
+    apply Forall_snoc; auto.
+    rewrite Forall_forall in Is. apply nth_error_In in Heqo. apply Is in Heqo. exact Heqo.
+  - eapply step_entries; eauto.
+Qed.
+
+Lemma steps_winv : forall es s s', steps s es = Some s' -> winv s -> winv s'.
+Proof.
+  induction es; unfold steps; simpl; intros s s' H I.
+  - inversion H; subst; auto.
+  - destruct (step s a) eqn:E; try discriminate.
+    eapply IHes; eauto. eapply step_winv; eauto.
+Qed.
+
+Lemma wake_of_count : forall j l, 1 <= sumf (is_wake j) l -> exists e, In e l /\ snd e = j.
+Proof.
+  intros j l H. destruct (sumf_pos_ex _ _ _ H) as (k & y & A & B).
+  exists y. split; [eapply nth_error_In; eauto|].
+  unfold is_wake in B. destruct (Nat.eqb_spec (snd y) j); auto. simpl in B. lia.
+Qed.
+
+Lemma every_result_wakes : forall l d es s dd j p,
+  steps (init l d) es = Some s -> In (dd, j, p) (completed s) ->
+  In (dd, j) (wakes s) \/
+  exists w s', nth_error (work s) w = Some (WSent dd j) /\
+               step s (EWake w) = Some s' /\ In (dd, j) (wakes s').
+Proof.
+  intros l d es s dd j p H Hin.
+  destruct (steps_winv _ _ _ H (winv_init l d)) as [Ic Is Iw Ie].
+  assert (Ho : exists x, nth_error (jobs s) j = Some x /\ owner x = dd).
+  { rewrite Forall_forall in Ie. destruct (Ie _ Hin) as (x & A & B & _). simpl in *. eauto. }
+  destruct Ho as (x & Hx & Hox).
+  assert (D : 1 <= delivered s j).
+  { apply In_nth_error in Hin. destruct Hin as (k & Hk).
+    pose proof (sumf_nth_le _ (is_entry j) _ _ _ Hk) as P. unfold is_entry in P at 1. simpl in P.
+    rewrite Nat.eqb_refl in P. exact P. }
+  rewrite Ic in D.
+  destruct (Nat.eq_dec (woken s j) 0) as [Z|Z].
+  - right. assert (S1 : 1 <= sending s j) by lia.
+    destruct (sumf_pos_ex _ _ _ S1) as (w & q & Hw & Hq).
+    destruct q; simpl in Hq; try lia. destruct (Nat.eqb_spec j0 j); simpl in Hq; try lia. subst j0.
+    assert (d0 = dd).
+    { rewrite Forall_forall in Is. pose proof (Is _ (nth_error_In _ _ Hw)) as (y & A & B).
+      simpl in *. congruence. }
+    subst d0. exists w. eexists. split; [exact Hw|]. split; [apply ev_Wake; exact Hw|].
+    fld. apply in_or_app. right. left. reflexivity.
+  - left. destruct (wake_of_count j (wakes s)) as (e & He & Hej). { unfold woken in Z. lia. }
+    rewrite Forall_forall in Iw. destruct (Iw _ He) as (y & A & B).
+    destruct e as [a b]. simpl in *. subst. congruence.
+Qed.
+
+(* and never the other way round: a wake for job j is only issued after its
+   result was sent *)
+Lemma wake_after_send : forall l d es s dd j,
+  steps (init l d) es = Some s -> In (dd, j) (wakes s) ->
+  exists p, In (dd, j, p) (completed s).
+Proof.
+  intros l d es s dd j H Hin.
+  destruct (steps_winv _ _ _ H (winv_init l d)) as [Ic Is Iw Ie].
+  assert (W : 1 <= woken s j).
+  { apply In_nth_error in Hin. destruct Hin as (k & Hk).
+    pose proof (sumf_nth_le _ (is_wake j) _ _ _ Hk) as P. unfold is_wake in P at 1. simpl in P.
+    rewrite Nat.eqb_refl in P. exact P. }
+  destruct (entry_of_delivered j (completed s)) as (e & He & Hej). { specialize (Ic j). unfold delivered in Ic. lia. }
+  rewrite Forall_forall in Ie, Iw.
+  destruct (Ie _ He) as (x & A & B & _). destruct (Iw _ Hin) as (y & A' & B').
+  destruct e as [[a b] c]. simpl in *. subst. exists c.
+  rewrite A in A'. inversion A'; subst. exact He.
 Qed.
